@@ -86,12 +86,13 @@ struct Sched {
     order: Vec<usize>,
     pos: usize,
     running: Option<usize>,
+    finished: Vec<bool>,
 }
 
 /// run `threads` (each a list of ops) on `bm` under the interleaving `order` (thread ids, one per atomic step);
 /// returns for each thread the results of its harvests / clones
 fn run_schedule(bm: Arc<AtomicBitmap>, threads: &[Vec<TOp>], order: Vec<usize>) -> Vec<Vec<Vec<u64>>> {
-    let ctl = Arc::new((Mutex::new(Sched { order, pos: 0, running: None }), Condvar::new()));
+    let ctl = Arc::new((Mutex::new(Sched { order, pos: 0, running: None, finished: vec![false; threads.len()] }), Condvar::new()));
     let mut handles = vec![];
     for (tid, ops) in threads.iter().enumerate() {
         let (bm, ops, ctl) = (bm.clone(), ops.clone(), ctl.clone());
@@ -107,11 +108,22 @@ fn run_schedule(bm: Arc<AtomicBitmap>, threads: &[Vec<TOp>], order: Vec<usize>) 
                     s.running = None; // my previous step is complete
                     cv.notify_all();
                 }
-                while !(s.running.is_none() && s.pos < s.order.len() && s.order[s.pos] == tid) {
+                // The schedule was computed from a dry run; if the code under test issues a different number of
+                // steps (e.g. data-dependent ones) the schedule may run out or name a finished thread: skip
+                // those entries, and once it is exhausted let the threads run one step at a time in any order.
+                loop {
+                    while s.pos < s.order.len() && s.finished[s.order[s.pos]] {
+                        s.pos += 1;
+                    }
+                    if s.running.is_none() && (s.pos >= s.order.len() || s.order[s.pos] == tid) {
+                        break;
+                    }
                     s = cv.wait(s).unwrap();
                 }
                 s.running = Some(tid);
-                s.pos += 1;
+                if s.pos < s.order.len() {
+                    s.pos += 1;
+                }
             })));
             let mut results = vec![];
             for op in &ops {
@@ -134,6 +146,7 @@ fn run_schedule(bm: Arc<AtomicBitmap>, threads: &[Vec<TOp>], order: Vec<usize>) 
             if s.running == Some(tid) {
                 s.running = None;
             }
+            s.finished[tid] = true;
             cv.notify_all();
             results
         }));
@@ -141,8 +154,17 @@ fn run_schedule(bm: Arc<AtomicBitmap>, threads: &[Vec<TOp>], order: Vec<usize>) 
     handles.into_iter().map(|h| h.join().unwrap()).collect()
 }
 
+/// number of atomic steps of a thread's program: the larger of a dry run on a clean bitmap and one on a
+/// fully marked bitmap (the programs of the unchanged code are straight-line; a changed one may not be)
 fn count_steps(size: usize, page: usize, ops: &[TOp]) -> usize {
+    count_steps_on(size, page, ops, false).max(count_steps_on(size, page, ops, true))
+}
+
+fn count_steps_on(size: usize, page: usize, ops: &[TOp], marked: bool) -> usize {
     let bm = AtomicBitmap::new(size, NonZeroUsize::new(page).unwrap());
+    if marked {
+        bm.set_addr_range(0, size);
+    }
     hk::atomic_log_start();
     for op in ops {
         match op {
